@@ -561,6 +561,8 @@ pub struct HandlerProgram {
     pub fail: bool,
     /// `ResponseBuilder::force_close()`
     pub force_close: bool,
+    /// `ResponseBuilder::no_chunking(len)`: Content-Length set by the handler, body written raw
+    pub no_chunking: Option<u64>,
 }
 
 impl HandlerProgram {
@@ -573,7 +575,12 @@ impl HandlerProgram {
             body,
             fail: false,
             force_close: false,
+            no_chunking: None,
         }
+    }
+    pub fn no_chunking(mut self, len: u64) -> Self {
+        self.no_chunking = Some(len);
+        self
     }
     pub fn close(mut self) -> Self {
         self.force_close = true;
@@ -655,6 +662,9 @@ pub struct EnvOpts {
     pub light_log: bool,
     /// handler gates are never released (a handler that never completes)
     pub hold_gates: bool,
+    /// at quiescence, poll the connection this many extra times without any event (spurious
+    /// wake-ups are legal; memory bounds must not depend on being polled only when necessary)
+    pub spurious_polls: u32,
 }
 
 impl Default for EnvOpts {
@@ -671,6 +681,7 @@ impl Default for EnvOpts {
             gauges: false,
             light_log: false,
             hold_gates: false,
+            spurious_polls: 0,
         }
     }
 }
